@@ -254,8 +254,21 @@ class C03(Prop):
         def scheduled():
             for c in inner.make():
                 yield dict(c, sched=True)
+        def special_texts():
+            # code points that codecs and text tools treat specially, alone / doubled / first / middle / last,
+            # as text, as JSON and as a close reason
+            for ch in gen.SPECIAL_CHARS:
+                variants = [ch, ch + ch, ch + "abc", "x" + ch + "y", "end" + ch]
+                for deflate in (False, True):
+                    yield {"calls": [{"m": "send_text", "arg": ["str", v]} for v in variants] +
+                                    [{"m": "send_json", "obj": {"k" + ch: [ch, variants[2]]}}],
+                           "keys": FIXED_KEYS[2:3] * 6, "deflate": deflate}
+                yield {"calls": [{"m": "send_json", "kwargs": {"text": ch + "z"}},
+                                 {"m": "close", "code": 1000, "reason": ["s", ch + "bye" + ch]}],
+                       "keys": FIXED_KEYS[3:4] * 6, "deflate": False}
         return [Enumeration("length_sweep_x_4_keys", sweep, exhaustive=True), after_every_prelude(battery),
-                Enumeration("one_complete_frame_per_call_while_another_thread_writes", scheduled, exhaustive=True)]
+                Enumeration("one_complete_frame_per_call_while_another_thread_writes", scheduled, exhaustive=True),
+                Enumeration("special_code_points_round_trip", special_texts, exhaustive=True)]
 
     def run_case(self, case):
         if case.get("sched"):
